@@ -25,7 +25,8 @@ LEVEL_NOTE = ("Lean kernel + standard axioms; the model is a hand transcription 
               "the grid runs, not verified); the model describes the code with fixes/C09-*.diff applied.")
 RULE = ("seeded histories create + ≤8 (thorough ≤40) operations (overwrite via node or version, modify with six "
         "modifier kinds, update at offsets/lengths around segment boundaries, EOF and power-of-two segment counts, "
-        "whole and range reads by download_best_version or MutableFileVersion.read) on a real MutableFileNode, SDMF "
+        "whole and range reads by download_best_version or MutableFileVersion.read or through a fresh node of a second "
+        "client; a family of histories that reuse ONE MutableFileVersion object for several operations) on a real MutableFileNode, SDMF "
         "and MDMF, k in 1..3, DEFAULT_MUTABLE_MAX_SEGMENT_SIZE lowered to 5..16 bytes; a case is one operation of a "
         "history (or one crafted function-level input); distinct = distinct (format, k, segsize, size before, op) ; "
         "non-trivial = the file is non-empty before the operation (function level: the update touches old data)")
@@ -78,7 +79,14 @@ def apply_modifier(kind, arg, old):
 
 
 def op_token(op):
+    """driver token of an op; None = not sent to the model (`pin`, reads through a held version object).
+    The model has no version objects: every operation applies to the node's current best version, so an
+    operation through a reused (held) MutableFileVersion maps to the same token as through a fresh one."""
     k = op[0]
+    if k == "pin":
+        return None
+    if k == "held":
+        return None if op[1][0] == "read" else op_token(op[1])
     if k == "create":
         return "c:%s:%s" % (op[1], hx(bytes.fromhex(op[2])))
     if k == "overwrite":
@@ -96,8 +104,9 @@ def op_token(op):
     raise ValueError(op)
 
 
-def hist_line(h):
-    return "hist %d %d " % (h["k"], h["maxseg"]) + " ".join(op_token(o) for o in h["ops"])
+def hist_line(h, skip=()):
+    toks = [op_token(o) for i, o in enumerate(h["ops"]) if i not in skip]
+    return "hist %d %d " % (h["k"], h["maxseg"]) + " ".join(t for t in toks if t is not None)
 
 
 # ----------------------------------------------------------------------------- generators
@@ -201,6 +210,66 @@ def gen_history(rng, maxops):
             "policy": rng.choice(["random", "random", "random", "fifo", "lifo"]), "ops": ops}
 
 
+def gen_reuse_history(rng, maxops):
+    """Several operations through ONE MutableFileVersion object (update/overwrite/modify/read in any order, offsets
+    inside / at / after EOF), read back through a fresh node after each; occasionally the object is overtaken by a
+    change made through another object, or a new object is obtained."""
+    k, n, maxseg = rng.choice(CONFIGS)
+    seg = next_multiple(maxseg, k)
+    fmt = "m" if rng.random() < 0.7 else "s"
+    size = max(1, pick_size(rng, seg))
+    ops = [["create", fmt, rbytes(rng, size).hex()], ["pin"]]
+
+    def upd():
+        nonlocal size
+        off = pick_offset(rng, seg, size)
+        ln = pick_len(rng, seg, size, off)
+        ok = size > 0 and (off <= size if fmt == "m" else True) and not (fmt == "m" and off == size and size % seg == 0)
+        if ok:
+            size = max(size, off + ln)
+        return ["update", off, rbytes(rng, ln).hex()]
+    for _ in range(rng.randrange(2, maxops + 1)):
+        r = rng.random()
+        if r < 0.55:
+            ops.append(["held", upd()])
+        elif r < 0.67:
+            size = max(1, pick_size(rng, seg))
+            ops.append(["held", ["overwrite", rbytes(rng, size).hex(), "held"]])
+        elif r < 0.79:
+            kind = rng.choice(["app", "pre", "same", "none", "cut"])
+            if kind in ("app", "pre"):
+                ln = rng.choice([1, seg, rng.randrange(0, 2 * seg)])
+                size += ln
+                ops.append(["held", ["modify", kind, rbytes(rng, ln).hex()]])
+            elif kind == "cut":
+                nn = rng.randrange(1, size + 2)
+                size = min(size, nn)
+                ops.append(["held", ["modify", "cut", nn]])
+            else:
+                ops.append(["held", ["modify", kind]])
+        elif r < 0.88:
+            ops.append(["held", ["read", 0, None, "ver"]] if rng.random() < 0.6 or not size else
+                       ["held", ["read", rng.randrange(0, size), 1, "ver"]])
+            continue
+        elif r < 0.94:   # overtaken by another object of the same client
+            if rng.random() < 0.5:
+                size = max(1, pick_size(rng, seg))
+                ops.append(["overwrite", rbytes(rng, size).hex(), rng.choice(["node", "version"])])
+            else:
+                ops.append(upd())
+        else:
+            ops.append(["pin"])
+            continue
+        if rng.random() < 0.8:
+            ops.append(["read", 0, None, rng.choice(["fresh", "fresh", "ver"])])
+        elif size:
+            off = rng.randrange(0, size)
+            ops.append(["read", off, rng.randrange(1, size - off + 1), "fresh"])
+    ops.append(["read", 0, None, "fresh"])
+    return {"kind": "hist", "k": k, "n": n, "maxseg": maxseg, "sched": rng.randrange(1 << 30),
+            "policy": rng.choice(["random", "random", "fifo", "lifo"]), "ops": ops}
+
+
 # fixed corpus: past failures and boundary shapes, run first
 def _h(k, n, maxseg, ops, sched=1, policy="random"):
     return {"kind": "hist", "k": k, "n": n, "maxseg": maxseg, "sched": sched, "policy": policy, "ops": ops}
@@ -220,6 +289,32 @@ CORPUS = [
     _h(2, 4, 8, [["create", "m", A.hex()], ["read", 0, 5, "ver"], ["read", 1, 7, "ver"], ["read", 10, 12, "ver"],
                  ["read", 6, 1, "ver"], ["read", 0, None, "ver"]]),
     _h(3, 5, 8, [["create", "m", (A * 2)[:40].hex()], ["read", 4, 23, "ver"], ["read", 30, 6, "ver"]]),
+    # repaired 6586d18: several operations through ONE MutableFileVersion object (`pin` = get_best_mutable_version();
+    # `held` = through that object), read back through a fresh node of a second client after each
+    _h(2, 4, 8, [["create", "m", A.hex()], ["pin"], ["held", ["update", 3, b"xyz".hex()]], ["read", 0, None, "fresh"],
+                 ["held", ["update", 10, b"0123".hex()]], ["read", 0, None, "fresh"]]),
+    _h(2, 4, 8, [["create", "m", A.hex()], ["pin"], ["held", ["update", 26, b"APPEND".hex()]], ["read", 0, None, "fresh"],
+                 ["held", ["update", 32, (b"more" * 4).hex()]], ["read", 0, None, "fresh"],
+                 ["held", ["update", 5, b"in".hex()]], ["read", 2, 9, "fresh"], ["held", ["update", 60, b"past".hex()]],
+                 ["held", ["update", 47, b"z".hex()]], ["read", 0, None, "fresh"]], policy="fifo"),
+    _h(2, 4, 8, [["create", "m", A.hex()], ["pin"], ["held", ["update", 7, b"uu".hex()]], ["held", ["overwrite", (A[:13] * 3).hex(), "held"]],
+                 ["read", 0, None, "fresh"], ["held", ["update", 39, b"tail".hex()]], ["read", 0, None, "fresh"],
+                 ["held", ["modify", "app", b"+mod".hex()]], ["held", ["update", 1, b"q".hex()]], ["read", 0, None, "fresh"],
+                 ["held", ["overwrite", b"short".hex(), "held"]], ["held", ["update", 2, b"ZZZZZZZZZ".hex()]],
+                 ["read", 0, None, "fresh"]]),
+    _h(2, 4, 8, [["create", "s", A.hex()], ["pin"], ["held", ["update", 3, b"xyz".hex()]], ["read", 0, None, "fresh"],
+                 ["held", ["update", 26, b"APPEND".hex()]], ["held", ["update", 40, b"gap".hex()]], ["read", 0, None, "fresh"],
+                 ["held", ["overwrite", A[:9].hex(), "held"]], ["held", ["update", 9, b"!".hex()]],
+                 ["held", ["modify", "pre", b">".hex()]], ["held", ["update", 0, b"<".hex()]], ["read", 0, None, "fresh"]]),
+    # read -> update -> read -> update through the object (a pinned version may show an older content or refuse)
+    _h(3, 5, 8, [["create", "m", (A * 2)[:31].hex()], ["pin"], ["held", ["read", 0, None, "ver"]],
+                 ["held", ["update", 18, (b"n" * 9).hex()]], ["held", ["read", 0, None, "ver"]], ["read", 0, None, "fresh"],
+                 ["held", ["update", 27, (b"m" * 12).hex()]], ["held", ["read", 20, 5, "ver"]], ["read", 0, None, "fresh"]]),
+    # the object is overtaken by a change made through the node / another object, then used again
+    _h(2, 4, 8, [["create", "m", A.hex()], ["pin"], ["overwrite", (A[:20] * 2).hex(), "node"], ["held", ["read", 0, None, "ver"]],
+                 ["held", ["update", 3, b"xyz".hex()]], ["held", ["update", 4, b"abc".hex()]], ["read", 0, None, "fresh"],
+                 ["update", 0, b"other".hex()], ["held", ["overwrite", A.hex(), "held"]], ["held", ["modify", "app", b"!".hex()]],
+                 ["held", ["update", 8, b"12345678".hex()]], ["read", 0, None, "fresh"]]),
     # repaired b67174d (stale node size): an update that extends the file followed by an update inside it (no download in between)
     _h(2, 4, 8, [["create", "m", A[:10].hex()], ["update", 10, (b"x" * 20).hex()], ["update", 12, b"Y".hex()],
                  ["read", 0, None, "ver"]]),
@@ -299,6 +394,13 @@ def classify(h, idx, fmt, ref_before, last_refresh_size_changes):
     """signature of a wrong/failed read after the successful mutator ops[idx] (a predicate on the history)."""
     op = h["ops"][idx]
     f = "mdmf" if fmt == "m" else "sdmf"
+    if op[0] == "held":
+        # operations through ONE MutableFileVersion object since it was obtained (`pin`)
+        j = idx
+        while j > 0 and h["ops"][j][0] != "pin":
+            j -= 1
+        chain = [o[1][0] for o in h["ops"][j:idx + 1] if o[0] == "held"]
+        return "reused-version-object:%s:%s" % (f, ">".join(chain[-4:]))
     if op[0] == "update":
         if op[1] > len(ref_before):
             return "%s-update-offset-beyond-eof" % f
@@ -320,12 +422,15 @@ def run_history(ctx, h, count=True):
     from allmydata.util.consumer import MemoryConsumer
 
     outs = []
+    skip = set()     # indices of ops that are not sent to the model
     saved = publish.DEFAULT_MUTABLE_MAX_SEGMENT_SIZE
     publish.DEFAULT_MUTABLE_MAX_SEGMENT_SIZE = h["maxseg"]    # configuration, not logic
     seg = next_multiple(h["maxseg"], h["k"])
     try:
         with grid.Runtime(seed=h["sched"], policy=h["policy"]) as rt:
-            g = grid.Grid(grid.fresh_dir("c09"), rt, num_servers=h["n"], num_clients=1, k=h["k"], happy=1, n=h["n"])
+            nclients = 2 if any((o[1] if o[0] == "held" else o)[0] == "read" and (o[1] if o[0] == "held" else o)[3] == "fresh"
+                                for o in h["ops"]) else 1
+            g = grid.Grid(grid.fresh_dir("c09"), rt, num_servers=h["n"], num_clients=nclients, k=h["k"], happy=1, n=h["n"])
             try:
                 c = g.clients[0]
                 node = None
@@ -336,6 +441,9 @@ def run_history(ctx, h, count=True):
                 ref_before = b""
                 unrefreshed = False     # size changed via modify/update since the node last recorded its size
                 unref_at_last = False
+                held_mv = None          # the reused MutableFileVersion object (`pin`)
+                held_stale = False      # the file was changed through another object since held_mv last published/was obtained
+                since_pin = []          # contents the file has had since the pin (what a pinned version may legitimately show)
 
                 class Broken(BaseException):
                     pass
@@ -366,15 +474,54 @@ def run_history(ctx, h, count=True):
 
                 try:
                     for i, op in enumerate(h["ops"]):
+                        held = op[0] == "held"
+                        if held:
+                            op = op[1]
                         kind = op[0]
+                        if kind == "pin" or (held and held_mv is None):
+                            held_mv = rt.wait(node.get_best_mutable_version())
+                            held_stale = False
+                            since_pin = [bytes(ref)]
+                            if kind == "pin":
+                                continue
                         size_before = len(ref) if ref is not None else 0
                         if count:
-                            ctx.count("op:" + kind + (":" + (fmt or op[1]) if kind != "read" else ""))
+                            ctx.count("op:" + ("held-" if held else "") + kind + (":" + (fmt or op[1]) if kind != "read" else ""))
                             ctx.case(("H", fmt or op[1], h["k"], seg, size_before, repr(op[:3])) if size_before else None)
                         if kind == "read":
                             off, size, how = op[1], op[2], op[3]
+                            if held:
+                                # a read through the reused object: a MutableFileVersion is one specific version, so it
+                                # may show any content the file has had since the object was obtained, or refuse
+                                skip.add(i)
+                                try:
+                                    mc = MemoryConsumer()
+                                    rt.wait(held_mv.read(mc, off, size))
+                                    got = b"".join(mc.chunks)
+                                except Exception as e:
+                                    if count:
+                                        ctx.count("held-read:refused:" + exc_name(e))
+                                    continue
+                                okc = [x for x in since_pin + [bytes(ref)]
+                                       if got == x[off:(len(x) if size is None else off + size)]]
+                                if count:
+                                    ctx.count("held-read:" + ("current" if got == bytes(ref)[off:(len(ref) if size is None else off + size)]
+                                                              else "pinned-version" if okc else "other"))
+                                if not okc and not free:
+                                    violation("read through a reused version object returns bytes the file never had",
+                                              dict(h, ops=h["ops"][:i + 1]),
+                                              classify(h, i, fmt, ref_before, unref_at_last) + "-held-read-wrong-bytes",
+                                              {"read": [off, size], "got": got.hex(), "current": bytes(ref).hex()})
+                                continue
                             try:
-                                if how == "dbv":
+                                if how == "fresh":
+                                    n2 = g.clients[1].create_node_from_uri(node.get_uri())
+                                    v = rt.wait(n2.get_best_readable_version())
+                                    mc = MemoryConsumer()
+                                    rt.wait(v.read(mc, off, size))
+                                    got = b"".join(mc.chunks)
+                                    del n2, v
+                                elif how == "dbv":
                                     got = rt.wait(node.download_best_version())
                                     unrefreshed = False     # _record_size
                                 else:
@@ -416,7 +563,10 @@ def run_history(ctx, h, count=True):
                                 refreshed = True
                             elif kind == "overwrite":
                                 data = bytes.fromhex(op[1])
-                                if op[2] == "node":
+                                if held:
+                                    rt.wait(held_mv.overwrite(MutableData(data)))
+                                    refreshed = False
+                                elif op[2] == "node":
                                     rt.wait(node.overwrite(MutableData(data)))
                                     refreshed = True
                                 else:
@@ -431,7 +581,7 @@ def run_history(ctx, h, count=True):
                                 def modifier(old, servermap, first_time, _k=op[1], _a=arg):
                                     seen.append(old)
                                     return apply_modifier(_k, _a, old)
-                                rt.wait(node.modify(modifier))
+                                rt.wait((held_mv if held else node).modify(modifier))
                                 if seen:
                                     check_read(i, seen[-1], 0, None)     # the old contents handed to the modifier are a read
                                 r = apply_modifier(op[1], arg, bytes(ref))
@@ -440,7 +590,7 @@ def run_history(ctx, h, count=True):
                                 refreshed = False
                             elif kind == "update":
                                 off, data = op[1], bytes.fromhex(op[2])
-                                mv = rt.wait(node.get_best_mutable_version())
+                                mv = held_mv if held else rt.wait(node.get_best_mutable_version())
                                 rt.wait(mv.update(MutableData(data), off))
                                 new_ref = bytearray(ref)
                                 new_free = set(free)
@@ -455,6 +605,13 @@ def run_history(ctx, h, count=True):
                         except Exception as e:
                             if isinstance(e, (ValueError, KeyError, TypeError)) and kind not in ("update", "modify", "overwrite", "create"):
                                 raise
+                            if held and held_stale and exc_name(e) in ("UncoordinatedWriteError", "index", "NotEnoughServersError"):
+                                # the object's servermap predates a change made through another object: the code
+                                # notices (refusal); the model has no version objects, so this op is not sent to it
+                                skip.add(i)
+                                if count:
+                                    ctx.count("held-stale-refused:%s:%s:%s" % (fmt, kind, exc_name(e)))
+                                continue
                             outs.append("err:" + exc_name(e))
                             if count:
                                 ctx.count("refused:%s:%s:%s" % (fmt, kind, exc_name(e)))
@@ -467,6 +624,8 @@ def run_history(ctx, h, count=True):
                         elif len(new_ref) != len(ref_before):
                             unrefreshed = True
                         ref, free, last_mut = new_ref, new_free, i
+                        since_pin.append(bytes(ref))
+                        held_stale = (held_mv is not None) and not held
                         try:
                             v = rt.wait(node.get_best_readable_version())
                             outs.append("ok:%d:%d" % (v._version[3], v._version[4]))
@@ -492,6 +651,7 @@ def run_history(ctx, h, count=True):
                 g.close()
     finally:
         publish.DEFAULT_MUTABLE_MAX_SEGMENT_SIZE = saved
+    h["_skip"] = sorted(skip)
     return ";".join(outs)
 
 
@@ -711,9 +871,11 @@ def run(ctx):
         rngs = [dict(c) for c in RNG_CORPUS]
         decs = [dict(c) for c in DEC_CORPUS]
         thorough = ctx.tier == "thorough"
-        for i in range(budget(230, 2200)):
+        for i in range(budget(190, 2000)):
             mx = 8 if not thorough else rng.choice([8, 8, 20, 40])
             hists.append(gen_history(rng, mx))
+        for i in range(budget(60, 700)):
+            hists.append(gen_reuse_history(rng, 8 if not thorough else rng.choice([8, 8, 20])))
         for i in range(budget(1500, 30000)):
             tus.append(tu_case(rng))
         for i in range(budget(400, 6000)):
@@ -749,7 +911,7 @@ def run(ctx):
         ctx.case(("RNG", c["seg"], c["size"], c["off"], c["len"]) if c["size"] else None)
         ctx.count("rng")
 
-    lines = [hist_line(h) for h in hists] + [tu_line(c) for c in tus] + \
+    lines = [hist_line(h, h.get("_skip", ())) for h in hists] + [tu_line(c) for c in tus] + \
             ["enc %d %d %s %d %d %d" % (c["k"], c["maxseg"], c["fmt"], c["dl"], c["off"], c["up"]) for c in encs] + \
             ["rng %d %d %d %d" % (c["seg"], c["size"], c["off"], c["len"]) for c in rngs] + \
             ["dec %d %d %d %s" % (c["seg"], c["k"], c["segnum"], hx(bytes.fromhex(c["content"]))) for c in decs]
